@@ -2,9 +2,9 @@
 import re, sys
 
 class Fn:
-    __slots__ = ('name', 'params', 'ret', 'locals', 'blocks', 'nargs', 'header', 'impl_span', 'stmt_cache')
+    __slots__ = ('name', 'params', 'ret', 'locals', 'blocks', 'nargs', 'header', 'impl_span', 'stmt_cache', 'captures')
     def __init__(self):
-        self.params = []; self.locals = {}; self.blocks = {}; self.stmt_cache = {}; self.impl_span = None
+        self.params = []; self.locals = {}; self.blocks = {}; self.stmt_cache = {}; self.impl_span = None; self.captures = []
 
 HDR = re.compile(r'^fn (.*)$')
 
@@ -107,6 +107,10 @@ def parse_mir(text):
                 m = re.match(r'let (?:mut )?_(\d+): (.*);$', s)
                 if m and cur is None:
                     f.locals[int(m.group(1))] = m.group(2)
+                elif cur is None and s.startswith('debug '):
+                    # captured variables of a closure: "debug name => (_1.N: T);" (by value) or "(*((*_1).N: &T))" (by reference)
+                    mc = re.match(r'debug (\w+) => \(?\*?\(\(?\*?_1\)?\.(\d+): ', s)
+                    if mc: f.captures.append((mc.group(1), int(mc.group(2))))
                 else:
                     m = re.match(r'bb(\d+)(?: \(cleanup\))?: \{$', s)
                     if m:
